@@ -30,6 +30,8 @@ func c14Has(opts []string, o string) bool {
 }
 
 func c14IsAncestor(parent, child string) bool {
+	// destinations are paths: a detour in the spelling does not change what lies beneath what
+	parent, child = filepath.Clean(parent), filepath.Clean(child)
 	if parent == child {
 		return false
 	}
@@ -186,6 +188,10 @@ func TestVerifC14(t *testing.T) {
 		key := fmt.Sprintf("spec/wd=%s/%s", filepath.Base(wd), strings.ReplaceAll(strings.Join(list, "|"), root, "$R"))
 		key = strings.ReplaceAll(key, tmpExisting, "$T")
 		rp := map[string]interface{}{"wd_is_a": wd != fix, "wd": wd, "list": list, "root": root, "tmp": tmpExisting}
+		if gr := os.Getenv("GOROOT"); gr != runtime.GOROOT() {
+			key += "/GOROOT=" + strings.ReplaceAll(gr, root, "$R")
+			rp["goroot"] = gr
+		}
 		if err != nil {
 			outcomes["error"]++
 			return
@@ -212,6 +218,7 @@ func TestVerifC14(t *testing.T) {
 			Wd        string   `json:"wd"`
 			List      []string `json:"list"`
 			Root, Tmp string
+			Goroot    string `json:"goroot"`
 		}
 		if err := vh.LoadReplay(&rp); err != nil {
 			r.Fail("replay: %v", err)
@@ -226,6 +233,10 @@ func TestVerifC14(t *testing.T) {
 		}
 		for i := range rp.List {
 			rp.List[i] = strings.ReplaceAll(strings.ReplaceAll(rp.List[i], rp.Root, root), rp.Tmp, tmpExisting)
+		}
+		if rp.Goroot != "" {
+			os.MkdirAll(filepath.Join(fix, "0"), 0o755)
+			os.Setenv("GOROOT", strings.ReplaceAll(rp.Goroot, rp.Root, root))
 		}
 		eval(wd, rp.List, true)
 		return
@@ -248,6 +259,20 @@ func TestVerifC14(t *testing.T) {
 	for _, wd := range []string{"/", "/tmp"} {
 		rec(wd, nil)
 	}
+	// the toolchain directory the sandbox adds on its own comes from the environment: spelled with
+	// a detour it still has to be ordered after a requested directory that contains it
+	os.MkdirAll(filepath.Join(fix, "0"), 0o755)
+	for _, gr := range []string{fix + "/0/../a/b", fix + "/a/./b/", fix + "/a/b"} {
+		os.Setenv("GOROOT", gr)
+		maxLen = 1
+		save := alphabet
+		alphabet = []string{fix + "/a", ".", fix + "/a/b", fix + "/f"}
+		for _, wd := range workdirs {
+			rec(wd, nil)
+		}
+		alphabet = save
+	}
+	os.Setenv("GOROOT", runtime.GOROOT())
 	maxLen = 3
 	for k, v := range outcomes {
 		r.Count("outcome:"+k, v)
